@@ -30,6 +30,12 @@ ANCHORS = [
 ]
 
 RT_COUNTS = list(range(0, 201)) + [1000, 1000000, 1000001, 18446744073709551615]
+# the count may be any integer type: signed ones (negative counts select by absolute value in ICU4X; the oracle is asked the
+# same question) and narrow ones, at their extremes
+TYPED_COUNTS = [("i8", [0, 1, 2, 3, 5, 11, 21, 22, 100, 127, -1, -2, -5, -21, -128]), ("u8", [0, 1, 2, 3, 11, 21, 101, 255]),
+                ("i16", [1, 2, 21, -3, -11, -101]), ("u16", [0, 1, 2, 65535]), ("i32", [0, 1, 2, 5, 1000000, 2147483647, -1, -22, -2147483648]),
+                ("u32", [0, 1, 3, 23, 1000001]), ("i64", [1, 2, 9223372036854775807, -1, -5, -9223372036854775808]),
+                ("usize", [0, 1, 2, 4, 111, 1000]), ("isize", [1, -1, -2, 12])]
 
 
 def check_anchors(table):
@@ -195,6 +201,14 @@ def e2e_stage(res, tier, seed, table):
                     '    for n in cs.iter().copied() { emit(%d, &format!("v{}", n), &html(td!(%s, %s, count = move || n))); }' % (
                         counts_arr, oid, lv, key, oid, lv, key))
             c.add(body, {"kind": "key", "key": key, "locale": loc, "rule": rule, "forms": forms})
+            ty, vals = TYPED_COUNTS[(oid + ci) % len(TYPED_COUNTS)]
+            oid = c.next_id
+            arr = ", ".join(e2e.count_literal(ty, n) for n in vals)
+            body = ('    let cs: Vec<%s> = vec![%s];\n'
+                    '    for n in cs.iter().copied() { emit(%d, &format!("s{}", n), &td_string!(%s, %s, count = n).to_string()); }\n'
+                    '    for n in cs.iter().copied() { emit(%d, &format!("v{}", n), &html(td!(%s, %s, count = move || n))); }' % (
+                        ty, arr, oid, lv, key, oid, lv, key))
+            c.add(body, {"kind": "key", "key": key, "locale": loc, "rule": rule, "forms": forms, "counts": vals, "type": ty})
         for loc in locs:
             for rule, mac in (("cardinal", "td_plural"), ("ordinal", "td_plural_ordinal")):
                 oid = c.next_id
@@ -220,7 +234,7 @@ def e2e_stage(res, tier, seed, table):
         for oid, exp in c.expect.items():
             got = obs.get(oid, {})
             loc = exp["locale"]
-            for n in RT_COUNTS:
+            for n in exp.get("counts", RT_COUNTS):
                 if exp["kind"] == "t_plural":
                     res.ev()
                     want = table[loc][exp["rule"]]["cat"][str(n)]
@@ -240,7 +254,7 @@ def e2e_stage(res, tier, seed, table):
                     text = o.get("v", "<<%s>>" % o.get("panic", "missing"))
                     if fl == "v":
                         text = e2e.normalise_html(text)
-                    res.count("e2e:runtime-" + ("string" if fl == "s" else "view"))
+                    res.count("e2e:runtime-" + ("string" if fl == "s" else "view") + (":" + exp["type"] if "type" in exp else ""))
                     if text != want:
                         res.violation("C05/e2e-runtime-renders-other-form/" + fl, "locale=%s rule=%s forms=%s count=%d flavour=%s: expected %r got %r" % (
                             loc, exp["rule"], exp["forms"], n, fl, want, text), {"project": gen.project_to_jsonable(c.project), "key": exp["key"], "locale": loc, "count": n})
